@@ -259,7 +259,7 @@ V_DoCheckRet(r) ==
   \cup If(IsFail(r.e1) # IsFail(e1) \/ IsFail(r.e2) # IsFail(e2), "ret_errors")
   \cup If((IsFail(e1) \/ IsFail(e2)) /\ buf.src # "seed" /\ r.buf.id # buf.id, "ret_buffer")
   \cup If(~IsFail(e1) /\ ~IsFail(e2) /\ pc \in {"gen", "ff"} /\ V_NoBug(r.early) # {}, "ret_budget")
-  \cup If(r.early, "early_exit_without_deadline")   \* the harness never runs a check under a test deadline
+  \cup If(r.early /\ ~cfg.deadline, "early_exit_without_deadline")   \* (only dedicated scenarios run under a test deadline)
 E_DoCheckRet(r) ==
   /\ pc' = "report"
   /\ mon' = [mon EXCEPT !.early = r.early]
@@ -324,7 +324,7 @@ E_FailNow ==
 V_RunEndNoTB(failed) ==
   If(mon.anySig /\ ~failed, "falsification_lost")
   \cup If((IsFail(e1) \/ IsFail(e2)) /\ ~failed, "falsification_lost")
-  \cup If(~failed /\ valid # cfg.checks, "vacuous_pass")
+  \cup If(~failed /\ ~(valid = cfg.checks \/ (mon.early /\ valid > 0)), "vacuous_pass")
   \cup If(~failed /\ mon.gens # valid + invalid, "extra_invocations")
   \cup If(failed /\ ~IsFail(e1) /\ ~IsFail(e2) /\ valid = cfg.checks, "onlygen_despite_enough")
 
